@@ -62,6 +62,35 @@ struct tiff_buffer_pixel_bits< Buffer
 
 } // namespace detail
 
+namespace detail {
+
+// The rows of a file hold the channels in the order of the colour space. A destination view with another
+// channel order (bgr, argb, ...) is filled through a buffer of file-ordered pixels, so that copying
+// pairs the channels by colour instead of by position.
+template< typename View, typename Enable = void >
+struct tiff_file_order_view
+{
+    using type = View;
+};
+
+template< typename View >
+struct tiff_file_order_view< View
+                           , typename std::enable_if
+                             <
+                                 !is_bit_aligned< typename View::value_type >::value
+                                 && is_homogeneous< typename View::value_type >::value
+                                 && ( num_channels< View >::value > 1 )
+                             >::type
+                           >
+{
+    using pixel_t = pixel< typename channel_type< View >::type
+                         , layout< typename color_space_type< View >::type >
+                         >;
+    using type = typename type_from_x_iterator< pixel_t* >::view_t;
+};
+
+} // namespace detail
+
 template < int K >
 struct plane_recursion
 {
@@ -228,7 +257,9 @@ private:
              , std::true_type // is_read_only
              )
     {
-        read_data< detail::row_buffer_helper_view< View > >( v, 0 );
+        using file_view_t = typename detail::tiff_file_order_view< View >::type;
+
+        read_data< detail::row_buffer_helper_view< file_view_t > >( v, 0 );
     }
 
     template< typename View >
